@@ -35,8 +35,7 @@ LEVEL = "model_checking"
 QUICK = [
     ("interstitial", "i_b2", 0, 1, 0, c29.D2, {}),                        # ternary: interstitial + binary host
     ("interstitial", "i_tet3", 0, 1, 0, c29.ROT45, {"basedir": "run1"}),  # ternary, non-diagonal supercell
-    ("interstitial", "hcpoct", 2, 2, 0, c29.D221, {}),                    # host, octahedral, tetrahedral (diffuser)
-    ("interstitial", "fccoct", 1, 1, 0, c29.CUB, {"KPOINTS": None}),
+    ("interstitial", "hcpoct", 2, 2, 0, c29.D221, {"KPOINTS": None}),     # host, octahedral, tetrahedral (diffuser)
     ("interstitial", "i_hex", 0, 2, 0, c29.SHEAR, {}),                    # symmetry-lowering supercell
     ("interstitial", "i_tet3", 0, 1, 0, c29.SHEAR, {}),                   # ... in which an endpoint has no equivalent state
     ("vacancy", "b2", 0, 1, 1, c29.D2, {}),                               # binary host + solute = 3 species
@@ -45,10 +44,10 @@ QUICK = [
     ("vacancy", "b2", 1, 1, 1, c29.ROT45, {"IDformat": "{:03d}"}),
     ("vacancy", "fcc", 0, 1, 1, c29.CUB2, {}),
     ("vacancy", "i_hex", 1, 1, 1, c29.D221, {"basedir": "hex/"}),         # ternary host + solute = 4 species
-    ("vacancy", "l12", 1, 1, 1, c29.SHEAR, {}),
-    ("vacancy", "hcp", 0, 2, 1, c29.SKEW, {}),
 ]
 THOROUGH = [
+    ("vacancy", "l12", 1, 1, 1, c29.SHEAR, {}), ("vacancy", "hcp", 0, 2, 1, c29.SKEW, {}),
+    ("interstitial", "fccoct", 1, 1, 0, c29.CUB, {"KPOINTS": None}),
     ("interstitial", "perov", 2, 1, 0, c29.D2, {}), ("interstitial", "perov", 0, 1, 0, c29.SKEW, {}),
     ("interstitial", "monodeco", 1, 2, 0, c29.D122, {}), ("interstitial", "omega", 0, 2, 0, c29.D221, {}),
     ("interstitial", "i_ortho", 0, 2, 0, c29.D212, {}), ("interstitial", "tet2", 1, 1, 0, c29.D2, {}),
@@ -101,12 +100,17 @@ def parse_transfile(text, Dn, what):
     return {"relax": L[0].strip(), "rot": rot, "t": [int(x) % Dn for x in t], "map": [int(x) for x in L[5].split()]}
 
 
+CENV = dict(os.environ, LC_ALL="C", LANG="C")        # make's data base and messages are parsed: fixed locale
+CENV.pop("MAKEFLAGS", None)
+CENV.pop("MAKELEVEL", None)
+HAVE_MAKE = shutil.which("make") is not None       # without make the Makefile text is parsed instead (see below)
+
 _rule = re.compile(r"^([^\s#:=][^:=]*):(?!=)\s*(.*)$")
 
 
 def make_database(root):
     """The rules of the Makefile as make reads them (after its implicit-rule search for the default goal)."""
-    p = subprocess.run(["make", "-npk"], cwd=root, capture_output=True, text=True, timeout=300)
+    p = subprocess.run(["make", "-npk"], cwd=root, capture_output=True, text=True, timeout=300, env=CENV)
     out = p.stdout
     i = out.find("# Files")
     if i < 0:
@@ -132,6 +136,41 @@ def make_database(root):
             nottarget = False
         elif not line.strip():
             cur = None
+    return rules
+
+
+def makefile_rules_from_text(root, dirs):
+    """Fallback when no `make` is installed: explicit rules as written, pattern rules instantiated with the stem of
+    every directory that matches the pattern's first path component (what make's implicit-rule search does here)."""
+    with open(os.path.join(root, "Makefile")) as f:
+        lines = f.read().split("\n")
+    explicit, patterns = {}, []
+    for n, line in enumerate(lines):
+        m = _rule.match(line)
+        if not m or line.startswith("\t") or "$(" in line or m.group(1).strip().startswith("."):
+            continue
+        target, prereqs = m.group(1).strip(), m.group(2).split()
+        recipe = n + 1 < len(lines) and lines[n + 1].startswith("\t")
+        if "%" in target:
+            patterns.append((target, prereqs, recipe))
+        else:
+            e = explicit.setdefault(target, {"prereqs": [], "recipe": False})
+            e["prereqs"] += prereqs
+            e["recipe"] = e["recipe"] or recipe
+    rules = []
+    for (tp, pp, recipe) in patterns:
+        head = tp.split("/")[0]
+        pre, _, post = head.partition("%")
+        for d in dirs:
+            if "/" in d or not (d.startswith(pre) and d.endswith(post) and len(d) > len(pre) + len(post)):
+                continue
+            stem = d[len(pre):len(d) - len(post)]
+            target = tp.replace("%", stem)
+            e = explicit.pop(target, {"prereqs": [], "recipe": False})
+            rules.append({"target": target, "prereqs": [p.replace("%", stem) for p in pp] + e["prereqs"],
+                          "recipe": bool(recipe or e["recipe"])})
+    for target, e in explicit.items():
+        rules.append({"target": target, "prereqs": e["prereqs"], "recipe": bool(e["recipe"])})
     return rules
 
 
@@ -192,9 +231,13 @@ def exercise(s, S, sd, opts):
             pz = os.path.join(root, d, "POSCAR")
             if os.path.exists(pz):
                 shutil.copy(pz, os.path.join(root, d, "CONTCAR"))
-        rules = make_database(root)
-        dry = subprocess.run(["make", "-n", "-k"], cwd=root, capture_output=True, text=True, timeout=300)
-        missing = re.findall(r"No rule to make target '([^']*)'", dry.stdout + dry.stderr)
+        if HAVE_MAKE:
+            rules = make_database(root)
+            dry = subprocess.run(["make", "-n", "-k"], cwd=root, capture_output=True, text=True, timeout=300, env=CENV)
+            makerc = int(dry.returncode)
+            missing = re.findall(r"No rule to make target '([^']*)'", dry.stdout + dry.stderr)
+        else:
+            rules, makerc, missing = makefile_rules_from_text(root, dirs), 0, []
         # run the bundled script exactly as the rules that build endpoints would
         runs = []
         for r in rules:
@@ -219,7 +262,7 @@ def exercise(s, S, sd, opts):
             "nchem": int(s.crys.Nchem), "states": states, "trans": trans, "hasref": "reference" in sd,
             "ref": hs.state(sd["reference"]) if "reference" in sd else hs.DUMMY_STATE,
             "dirs": dirs, "files": files, "outside": outside, "tagmap": tagmap, "rules": rules, "poscars": poscars,
-            "transfiles": transfiles, "runs": runs, "makerc": int(dry.returncode), "makemissing": missing}
+            "transfiles": transfiles, "runs": runs, "makeran": HAVE_MAKE, "makerc": makerc, "makemissing": missing}
 
 
 # ------------------------------------------------------------------ the check
@@ -246,6 +289,9 @@ def run(ctx):
                 "make, trans.pl really run on CONTCAR = POSCAR; all facts decided by TLC (Check_C30 + Archive.tla); "
                 "non-trivial = endpoint built by a transformation whose site permutation or reordering is not the "
                 "identity, in an archive with three or more species")
+    if shutil.which("perl") is None:
+        raise tlc.TLCError("perl is needed to run the bundled trans.pl (C30 cannot be decided without it)")
+    ctx.info("make_available", HAVE_MAKE)
     try:
         from onsager import automator      # noqa: F401
     except Exception as ex:      # noqa: BLE001
@@ -287,10 +333,12 @@ def run(ctx):
     import time
     t_tlc = time.time()
     ctx.info("wall_s_recording", round(t_tlc - ctx.t0, 1))
-    fails, infos, results = tlc.run_cases("Check_C30", cases, shards=11 if ctx.tier == "quick" else 14, timeout=2400)
+    fails, infos, results = tlc.run_cases("Check_C30", cases, shards=8 if ctx.tier == "quick" else 14, timeout=2400)
     ctx.info("wall_s_tlc", round(time.time() - t_tlc, 1))
+    ctx.info("wall_s_tlc_shards", [round(r.wall, 1) for r in results])
     for r in results:
         ctx.add_model(r)
+    hs.require_all_fails_read(results)
     stats = {"archives": len(cases), "archives_three_or_more_species": 0, "poscars_read_back": 0, "script_runs": 0,
              "script_runs_nonidentity": 0, "rules": 0, "unrelaxed_endpoints": 0}
     for ci, (kind, fam, setting, w, opts) in enumerate(meta):
@@ -309,12 +357,14 @@ def run(ctx):
             stats["script_runs_nonidentity"] += nonid
             ctx.case("%s|%s" % (setting, r["target"]), nontrivial=nonid and nspec >= 3)
         for cl in sorted(set(fails.get(ci, []))):
-            name, _, where = cl.partition("@")
+            name, lev, j, end = hs.split_clause(cl)
+            if end:
+                name += {"i": "(init)", "f": "(final)"}.get(end, end)
             rec, level = None, "archive"
-            if where.startswith("s"):
-                rec, level = c["states"][int(where[1:]) - 1], "state"
-            elif where.startswith("t"):
-                rec, level = c["trans"][int(where[1:]) - 1], "transition"
+            if lev == "s":
+                rec, level = c["states"][j - 1], "state"
+            elif lev == "t":
+                rec, level = c["trans"][j - 1], "transition"
             detail = ""
             if level == "archive":
                 detail = "dirs=%s tagmap=%s makemissing=%s makerc=%s" % (c["dirs"], c["tagmap"], c["makemissing"], c["makerc"])
